@@ -55,6 +55,7 @@ func runCheck(args []string) {
 	quick, full := 8*time.Second, 60*time.Second
 	if *tier == "thorough" {
 		quick, full = 20*time.Second, 300*time.Second
+		crossCheck = true
 	}
 	evPath := filepath.Join(*outRoot, "evidence", *prop+".json")
 	os.MkdirAll(filepath.Dir(evPath), 0o755)
@@ -204,6 +205,7 @@ func writeEvidence(path, prop, tier string, seed int, e *Engine, results []*Func
 	byBackend := map[string]int{}
 	byKind := map[string]int{}
 	var solverTime float64
+	secondCount := 0
 	var funcs []string
 	var samples []interface{}
 	var unknownCalls []string
@@ -232,6 +234,9 @@ func writeEvidence(path, prop, tier string, seed int, e *Engine, results []*Func
 			if ob.Status == "discharged" {
 				discharged++
 				byBackend[ob.Solver]++
+				if ob.Second != "" {
+					secondCount++
+				}
 			}
 			if i < 3 && len(samples) < 40 {
 				samples = append(samples, map[string]string{"obligation": ob.Name, "kind": ob.Kind, "clause": ob.Clause, "at": ob.Pos, "status": ob.Status, "backend": ob.Solver})
@@ -279,6 +284,7 @@ func writeEvidence(path, prop, tier string, seed int, e *Engine, results []*Func
 		"obligations_by_kind":   byKind,
 		"discharged_by_backend": byBackend,
 		"solver_time_s":         solverTime,
+		"discharged_also_by_a_solver_of_another_family": secondCount,
 		"assumed_external_contracts": externs,
 		"calls_without_contract_havocked": unknownCalls,
 		"not_verified":          notVerified,
